@@ -489,6 +489,21 @@ func histParseStage(c *Ctx, d *Decl, kinds []string, firstUse string) string {
 		return ""
 	}
 	obsB := histObs(fresh, sc2, args2)
+	// the command the library really ends in (it may differ from the intent, e.g. when PassAfterNonOption stops
+	// the parse early): below it the re-used parser still carries the Active chain of the first use, and the
+	// required check follows that chain - only vectors that really end where the first use ended are judged
+	var active []string
+	for x := fresh.P.Command.Active; x != nil && len(active) < 64; x = x.Active {
+		active = append(active, x.Name)
+	}
+	if !eqStrs(active, chainNames(m.Cmd.Chain())) {
+		return ""
+	}
+	if firstUse == "parse" && len(args1) > len(m.Cmd.Chain())-1 && (strings.Contains(obsA, "error: flags.Error/required") || strings.Contains(obsB, "error: flags.Error/required")) {
+		// the first vector contained an option token: through a name that an outer command also declares it may
+		// have marked a required option as given (Set marks before it converts) - that mark is never taken back
+		return ""
+	}
 	c.Count("history_stages", 1)
 	if obsA != obsB {
 		c.Violate("history:"+m.Label+":"+firstUse, "after [%s %q, %s] the parse of %q on the same parser differs from the same parse on a fresh parser of the changed declaration:\n--- re-used parser\n%s--- fresh parser\n%s", firstUse, args1, m.Label, args2, obsA, obsB)
